@@ -54,6 +54,9 @@ CHECKS = {
  "C17": dict(cat="exploration", tech="size-grid enumeration of adversarial families on the real analysis entry points with hook counters (zipper equivalence comparisons, SCEV evaluations, renamer invocations); explicit polynomial bounds, growth ratios between consecutive sizes, watchdog on counted operations",
    text="Each adversarial family is run at growing sizes through the real fingerprinter, topology extraction and zipper; work is read from three build-tag-guarded counters and compared with explicit low-order polynomial bounds and with the growth between consecutive sizes; panics, unguarded oversize inputs and exceeded string caps are violations. Small-program crash-freedom is covered by the program family of C02-C05/C09.",
    note="Not decided here: the statement's fuzzer-mutated-sources clause (random mutation is sampling, a different family); stated in DESIGN. Trusted: the three counters sit on the routines that dominate the work.", ref="3/C17"),
+ "C13": dict(cat="model_checking", tech="stateless exploration of the real CallLLM with the provider as an explorer-controlled transport: every sequence of provider responses over a 32-letter alphabet across both calls and all retries (deviation bound 2 / exhaustive), plus hostile commit messages and the built `sfw audit` per verdict class",
+   text="The reply to every HTTP request is a choice point; the explorer enumerates all response sequences (quick: at most two non-default answers; thorough: the whole tree, 3.8 million executions) and checks on each that a passing verdict implies a well-formed safe sentinel answer and a well-formed exact-MATCH final answer, and that every payload received keeps the nonce-delimited envelope with the commit message as one JSON string. The verdict-to-exit mapping is bound by running the real binary once per verdict class.",
+   note="Trusted: the alphabet represents the provider's behaviours; the model itself is outside. Gemini-path requests go through the same retry/validation code but are not separately enumerated.", ref="3/C13"),
 }
 NOT_YET = {}
 ALL = ["C%02d" % i for i in range(1, 21)]
